@@ -80,11 +80,41 @@ def run(rep, tier, rng):
                 rep.dist("perm_identity" if list(perm) == sorted(perm) else "perm_other")
                 rep.dist("leading_filler_words_%d" % min(fillers[0], 4))
                 rep.dist("gap_odd_words", sum(1 for x in fillers if x % 2 == 1))
+    # ---- index entries that point beyond the end of the .shp (byte offsets up to and beyond 2^31): located by the
+    # index alone, such an entry is answered with an end-of-file error and the others are unaffected
+    far_cases, far_meta = [], []
+    for mi in range(8 if tier == "thorough" else 4):
+        code = F.ALL_TYPES[(3 * mi) % 13]
+        model = F.gen_model(rng, code, nrecs=3, null_prob=0.0, allow_degenerate=False)
+        model.pop("trailing", None)
+        items = [refesri.denote(r["shape"]) for r in model["records"]]
+        shp, entries = build_layout(rng, model, (0, 1, 2), [0, 1, 0, 0], lambda k: bytes(k))
+        for far in ((1 << 30), (1 << 30) + 32, (1 << 31) - 1, (1 << 29) + 7, len(shp) // 2 + 4):
+            for at in (1, 3):
+                ent = list(entries)
+                ent.insert(at, (far, 14))
+                shx = refesri.encode_shx(model, entries=ent)
+                ops = [("count",), ("it", -1), ("nth", at), ("nth", 0), ("nth", 3)]
+                far_cases.append(C.read_case(-1, shp, shx, ops))
+                far_meta.append((items, at, far, ops))
+    rep.dist("index_entry_beyond_the_end", len(far_cases))
+    # ---- more than 1024 index entries (beyond the reader's pre-sizing cap), physical order reversed; the model
+    # reader is quadratic in the file size, so this file goes through the implementation and the oracle only
+    nbig = 1030 if tier != "thorough" else 2100
+    bigmodel = F.gen_model(rng, 1, nrecs=nbig, null_prob=0.0)
+    bigmodel.pop("trailing", None)
+    big_items = [refesri.denote(r["shape"]) for r in bigmodel["records"]]
+    big_shp, big_entries = build_layout(rng, bigmodel, tuple(reversed(range(nbig))), [0] * (nbig + 1), lambda k: bytes(k))
+    big_shx = refesri.encode_shx(bigmodel, entries=big_entries)
+    big_ops = [("count",), ("it", -1), ("nth", nbig - 1), ("nth", 1024), ("nth", nbig), ("hint",), ("it", 3)]
+    big_case = C.read_case(-1, big_shp, big_shx, big_ops)
     rep.cov["rule"] = ("%d record sets (14 type codes incl. null records, 1-%d records, foreign layouts) x permutations of the "
                        "physical order x filler lengths 0..3 words (and 17/33 words) before, between and after the records x filler "
                        "content random or record-like; header length covers the file; histories {iterate; count+nth(0)+iterate; "
                        "nth in non-monotone order + partial iteration + nth + iterate; seek + iterate}; generic and typed; "
                        "oracle: answers = abstract reader over the Python denotation of the records in index order; "
+                       "plus indexes with an entry pointing beyond the end of the .shp (word offsets up to i32::MAX) and one index of "
+                       "more than 1024 entries in reversed physical order (implementation + oracle only); "
                        "non-trivial = distinct case" % (nmodels, maxperm))
     impl = stages.correspondence(rep, "read", dev, cases, "read(permuted/filler layouts)")
     nfail = 0
@@ -97,5 +127,40 @@ def run(rep, tier, rng):
             if nfail == 1:
                 rep.violation({"kind": "oracle", "what": msg, "case_kind": "read", "case": c, "ops": ops,
                                "physical_order": list(perm), "filler_words": fillers, "type": code})
+    # entries beyond the end
+    far_impl = stages.correspondence(rep, "read_far", dev, far_cases, "read(index entries beyond the end of the .shp)")
+    for c, (items, at, far, ops), r in zip(far_cases, far_meta, far_impl):
+        rd = C.parse_read(r, ops)
+        msg = None
+        if rd.get("panic") or "open_err" in rd:
+            msg = "reader could not be opened or panicked on an index with an entry beyond the end: %r" % (rd,)
+        else:
+            got = rd["ops"][1]["items"]
+            want = [("ok", it) for it in items]
+            want.insert(at, None)
+            if len(got) != 4:
+                msg = "iteration over 4 index entries yielded %d items" % len(got)
+            else:
+                for g, wv in zip(got, want):
+                    if wv is None:
+                        if tuple(g) != ("err", 1):
+                            msg = "entry at word offset %d (beyond the end of the .shp) answered %r instead of an end-of-file error" % (far, g)
+                    elif tuple(g) != tuple(wv):
+                        msg = "a record next to an entry beyond the end was not read as stored"
+            nth = rd["ops"][2]["nth"]
+            if not msg and (nth is None or nth[0] != "err"):
+                msg = "random access at the entry beyond the end returned %r" % (nth,)
+        if msg:
+            nfail += 1
+            if nfail == 1:
+                rep.violation({"kind": "oracle", "what": msg, "case_kind": "read", "case": c, "ops": ops})
+    # the large index
+    big_impl = stages.correspondence(rep, "read_big", dev, [big_case], "read(%d index entries)" % nbig, model=False)
+    rd = C.parse_read(big_impl[0], big_ops)
+    msg = C04.check_against_abstract(rd, big_ops, [("ok", it) for it in big_items], nbig) if not (rd.get("panic") or "open_err" in rd) \
+        else "reader could not be opened on an index of %d entries" % nbig
+    if msg:
+        nfail += 1
+        rep.violation({"kind": "oracle", "what": "index of %d entries: %s" % (nbig, msg), "case_kind": "read", "case": big_case[:200]})
     rep.sample({"physical_order": list(meta[3][3]), "filler_words": meta[3][4], "ops": meta[3][2]})
     rep.cov["oracle"] = {"checked": len(cases), "failing": nfail}
